@@ -114,6 +114,7 @@ pub struct RunCfg {
     pub entropy_seed: Option<u64>,
     /// storage ops instantaneous + disk failure draws forced off (C14 differential twin)
     pub healthy_disk_twin: bool,
+    pub default_zero: bool,
 }
 
 #[derive(Clone, Debug)]
@@ -506,6 +507,7 @@ fn run_life(world: &Shared, setup: &Setup, steps: &mut u64) -> LifeEnd {
         w.select_ord = 0;
         let presets = conv::apps(&setup.apps);
         let boot = w.boot;
+        let key_id = w.server.client_latest.0;
         w.rec(Kind::LifeStart {
             mode: if setup.mode_start { "start".into() } else { "oneshot".into() },
             os_version,
@@ -514,6 +516,7 @@ fn run_life(world: &Shared, setup: &Setup, steps: &mut u64) -> LifeEnd {
             presets,
             system_idx: setup.system_idx,
             boot,
+            key_id,
         });
         let map = w.disk.committed.clone();
         w.rec(Kind::DiskCommitted { map });
@@ -1005,6 +1008,7 @@ pub fn run_sm(profile: &Profile, cfg: &RunCfg) -> (RunOut, Shared, Option<Setup>
     let mut draws = Draws::new(cfg.seed);
     draws.overrides = cfg.overrides.clone();
     draws.prefix_overrides = cfg.prefix_overrides.clone();
+    draws.default_zero = cfg.default_zero;
     let mut p = profile.clone();
     if cfg.healthy_disk_twin {
         p.disk.fail_set = 0;
@@ -1026,8 +1030,10 @@ pub fn run_sm(profile: &Profile, cfg: &RunCfg) -> (RunOut, Shared, Option<Setup>
         };
         setup_out = Some(setup.clone());
         let max_l = lock(&world).profile.max_lifetimes;
+        let mut life_setups: Vec<Setup> = vec![];
         for life in 0..max_l {
             lock(&world).life = life;
+            life_setups.push(setup.clone());
             let end = run_life(&world, &setup, &mut steps);
             let why = match end {
                 LifeEnd::Crash => "crash",
@@ -1086,6 +1092,38 @@ pub fn run_sm(profile: &Profile, cfg: &RunCfg) -> (RunOut, Shared, Option<Setup>
                 }
                 _ => break,
             }
+        }
+        // probe restarts: what would a machine rebuilt on each committed map present?
+        if lock(&world).profile.probes {
+            let (hist, server) = {
+                let mut w = lock(&world);
+                (std::mem::take(&mut w.hist), w.server.clone())
+            };
+            let mut out = Vec::with_capacity(hist.len() + 16);
+            let mut cache: BTreeMap<(u32, String), Option<(Vec<AppRec>, SchedRec, ProtoRec)>> = BTreeMap::new();
+            for r in hist.into_iter() {
+                let probe_here = if let Kind::DiskCommitted { map } = &r.kind { Some(map.clone()) } else { None };
+                let (seq, life, vt, wall) = (r.seq, r.life, r.vt, r.wall);
+                out.push(r);
+                if let Some(map) = probe_here {
+                    let key = (life, serde_json::to_string(&map).unwrap_or_default());
+                    let res = match cache.get(&key) {
+                        Some(x) => x.clone(),
+                        None => {
+                            let st = &life_setups[(life as usize).min(life_setups.len() - 1)];
+                            let x = probe(&map, st, &server, vt, wall - vt as i128, 0);
+                            cache.insert(key, x.clone());
+                            x
+                        }
+                    };
+                    if let Some((apps, sched, proto)) = res {
+                        out.push(Rec { seq, life, vt, wall, kind: Kind::Probe { at: format!("commit@{seq}"), apps, sched, proto } });
+                    } else {
+                        out.push(Rec { seq, life, vt, wall, kind: Kind::Note("probe: machine did not start".into()) });
+                    }
+                }
+            }
+            lock(&world).hist = out;
         }
         setup_out = Some(setup);
     }));
